@@ -461,12 +461,17 @@ def ext_str(x):
 
 def run_sort(rep, rng, drv, tier, util):
     n_cases = 150 if tier == "quick" else 2000
-    reqs, meta = [], []
+    reqs, meta, dtypes = [], [], []
     for ci in range(n_cases):
         k = rng.choice([1, 1, 2, 2, 3, 4])
         n = rng.choice([0, 1, 2, 3, 5, 8, 13, 30])
-        style = rng.choice(["distinct", "ties", "ties", "const", "ints", "inf"])
+        style = rng.choice(["distinct", "ties", "ties", "const", "ints", "inf", "dtype", "dtype"])
+        dt = rng.choice(["uint8", "uint16", "uint32", "uint64", "int8", "int16", "int32", "int64", "float32"]) if style == "dtype" else "float64"
         def col(first):
+            if style == "dtype" and first:
+                # integral keys in a narrow / unsigned / single-precision dtype: differences of neighbours wrap around or overflow there
+                lo_, hi_ = (0, 250) if dt.startswith("uint") else (-120, 120)
+                return [float(rng.randint(lo_, hi_)) for _ in range(n)]
             if style == "distinct" or not first:
                 return [rng.uniform(-5, 5) if not first or style != "ints" else float(rng.randint(-3, 3)) for _ in range(n)]
             if style == "ties":
@@ -480,7 +485,8 @@ def run_sort(rep, rng, drv, tier, util):
         cols = [col(True)] + [col(False) for _ in range(k - 1)]
         reqs.append(("utils.sort", f"{k} " + " ".join(C.flist(c) for c in cols)))
         meta.append(cols)
-        rep.count("sort_keys=" + style)
+        dtypes.append(dt)
+        rep.count("sort_keys=" + style + ("(" + dt + ")" if style == "dtype" else ""))
         rep.count("sort_arrays=%d" % k)
     # unequal shapes / no arguments
     uneq = [[[1.0, 2.0], [1.0]], [[], [1.0]], [[3.0, 1.0, 2.0], [1.0, 2.0, 3.0], [1.0, 2.0]]]
@@ -490,15 +496,16 @@ def run_sort(rep, rng, drv, tier, util):
     reqs.append(("utils.sort", "0"))
     meta.append([])
     replies = drv.run(reqs)
-    for cols, r in zip(meta, replies):
-        inp = dict(arrays=cols)
-        call = "sort_by_first(" + ", ".join("np.array(%r)" % (c,) for c in cols) + ")"
+    dtypes += ["float64"] * (len(meta) - len(dtypes))
+    for cols, r, dt in zip(meta, replies, dtypes):
+        inp = dict(arrays=cols, dtype_of_first=dt)
+        call = "sort_by_first(" + ", ".join("np.array(%r%s)" % (c, ", dtype=%r" % dt if (i == 0 and dt != "float64") else "") for i, c in enumerate(cols)) + ")"
         rep.case(("sort", repr(cols)), sample=dict(op="sort_by_first", arrays=cols) if len(cols) and len(cols[0]) < 6 else None)
         if r is None:
             rep.disagree(op="utils.sort", note="model rejected", input=inp)
             continue
         try:
-            out = util.sort_by_first(*[np.array(c, dtype=float) for c in cols])
+            out = util.sort_by_first(*[np.array(c, dtype=(dt if i == 0 else float)) for i, c in enumerate(cols)])
             raised = None
         except ValueError:
             raised = "ValueError"
@@ -574,7 +581,7 @@ def run(seed, tier, replay=None):
              "structured+random points in [-37,37] (cdf also beyond and at +-inf), normal_ppf on [0,1] incl. the ends, the "
              "stated range ends and the validation slack, each point checked against mpmath at the property's tolerance "
              "and against the Lean Float model; (d) sort_by_first on random tuples of 1-4 equal-length arrays with ties, "
-             "constants, infinities, empty and unequal shapes. distinct = distinct (function, input) pairs by hash.",
+             "constants, infinities, integral keys in uint8..uint64 / int8..int64 / float32, empty and unequal shapes. distinct = distinct (function, input) pairs by hash.",
         extra=dict(driver_lines=drv.lines))
 
 
